@@ -17,6 +17,8 @@ TEXT = {
 META = "Metamorphic/differential bounded check on the real compiler: both programs of every pair are compiled by d2compiler.Compile inside the symbolic interpreter, a canonical projection of the two board trees (IDs, labels, shapes, attributes, styles, connections with endpoints/arrows/index, nested boards, element order) is built as a string with symbolic bytes, and z3 decides equality for every value of the symbolic names/values/choices within the bound. "
 TEXT.update({
  "C18": ("The real layout orchestration (LayoutNested with subgraph extraction, injection, order restoration and re-attachment of cross-diagram connections, plus the real grid, sequence and near layouts) is executed by the symbolic interpreter over a family of nested diagrams whose shape (kinds of the outer, inner and third-level containers, near groups, which connections cross which boundary) is a vector of symbolic choices; the JavaScript core engine is replaced by a positional stand-in. On every member of the family the structure snapshot before and after must be equal and every pointer must lead to an object of the board. The solver here only decides the choice vector; the strength is that every combination in the family is covered, not a sample.", "4 C18"),
+ "C23": ("d2sequence.layoutSequenceDiagram executed on sequence diagrams whose messages (source and destination among actors and their spans, self messages included) are symbolic choices and whose actor, note and label sizes are symbolic numbers (exact dyadic lowering of float64): order of actors and messages, the common baseline, horizontality and the attachment of every message end to a lifeline or span border are decided by the solver for every size in range.", "4 C23"),
+ "C32": ("The real text renderer (ASCIIartist.Render with all shape drawers and the route drawer) is executed by the symbolic interpreter on laid-out diagrams assembled from symbolic choices (shape type, size, label, label position, multiple, relative position, connection arrowheads/label/route, character set). Sizes come from menus because the canvas size bounds the renderer's loops; the solver decides the choice vector and the byte-level assertions (7-bit ASCII, label present). Found the document shape writing mis-decoded overline bytes in both character sets (repaired).", "4 C32"),
  "C22": ("d2grid.layoutGrid executed on grids with both rows and columns given, with symbolic cell sizes (exact dyadic lowering of float64): order, disjointness, exact gaps, containment and row/column alignment are proved by the solver for every size in range. Grids with only rows or only columns (dynamic layout) are executed with the size along a line drawn from a menu (it decides the cuts, found through standard deviations the solver cannot reach) and the size across it symbolic: lines in declaration order, exact alignment and gaps, containment and disjointness for every such size.", "4 C22"),
  "C44": ("The watcher's real concurrency code (requestCompile, compileLoop, broadcast, handleWatch, writeLoop with their channels, mutexes and wait groups) is executed under the engine's cooperative scheduler with the compiler and the websocket library replaced by recording stand-ins; every schedule within the bound is explored and the latest-result and monotonic-delivery assertions are checked at quiescence.", "4 C44/C45"),
  "C45": ("Same scheduler harness for shutdown: close() racing with connected clients, a pending compile and a late connection attempt, on every schedule within the bound: close returns only when all handlers have ended, nothing is admitted afterwards, no deadlock or panic.", "4 C44/C45"),
